@@ -32,7 +32,8 @@ Inductive cexp :=
 | KIte (c a b : cexp)
 | KLet (x : nat) (e body : cexp)
 | KCast (w : Z) (sg : bool) (a : cexp)
-| KBswap (n : Z) (a : cexp).
+| KBswap (n : Z) (a : cexp)
+| KRd (n : Z) (off : cexp).      (* an n-byte unsigned integer read straight out of the buffer (little-endian host), bounds-checked *)
 
 Definition b2z (b : bool) : Z := if b then 1 else 0.
 Definition wrap (w : Z) (sg : bool) (z : Z) : Z :=
@@ -105,6 +106,8 @@ Fixpoint ceval (rds : list (string * list (Z * Z))) (d : list Z) (env : nat -> Z
   | KLet x e body => rbind (ceval rds d env e) (fun v => ceval rds d (upd env x v) body)
   | KCast w sg a => rbind (ceval rds d env a) (fun va => Ok (wrap w sg va))
   | KBswap n a => rbind (ceval rds d env a) (fun va => Ok (zbswap n va))
+  | KRd n off =>
+    rbind (ceval rds d env off) (fun o => if (0 <=? o) && (o + n <=? zlen d) then Ok (le_dec (take n (drop o d))) else Oob)
   end.
 
 (* parameters of a translated function: parameter i is variable i (a pointer parameter occupies its index and is never read as a number) *)
